@@ -61,6 +61,17 @@ PROPS = {
         "real": REAL_STORE, "stub": STUB_STORE + ["process death (directory snapshot / WAL tail zeroing instead of SIGKILL)"],
         "assumptions": ["process crash model: what was written to the mmap'd files survives", "no badger memtable flush within a run (verified per run)"],
     },
+    "C07": {
+        "level": "exploration",
+        "level_text": "seeded histories mixing writes to datasets that share ids and references with delete / rename / re-create, garbage collection and clean restarts; after every management operation every read API on every dataset and unscoped is compared with a reference model in which a deleted dataset never existed, and after GC a raw key scan must find nothing of the deleted dataset. Crash points inside create / rename / delete / GC (directory snapshots at hook points, WAL-prefix cuts inside the operations) are enumerated per history and every crash state must equal the state before or after the operation.",
+        "level_note": "crash model as for C04; the core.Dataset meta-entities are C19's subject and are not compared here",
+        "technique": SIM + "; reference-model refinement with 'never existed' semantics, crash-point / WAL-byte enumeration inside management ops, raw key scan after GC",
+        "profiles": [{"name": "C07", "quick": 300, "thorough": 9000}],
+        "chunk": 4, "timeout": 300,
+        "rule": "C07 profile: 4-14 ops over datasets dsA-dsD (writes 44%, delete 18%, create 12%, rename 10%, gc 10%, restart 6%), up to 14 named-point snapshots and 2-4 WAL cuts per management op. non-trivial = at least one management op and one commit; distinct = distinct normalised event trace hash",
+        "real": REAL_STORE + ["internal/server garbage collector"], "stub": STUB_STORE + ["process death (directory snapshot / WAL tail zeroing instead of SIGKILL)"],
+        "assumptions": ["process crash model: what was written to the mmap'd files survives", "a lookup scoped to a deleted dataset name may fall back to other datasets; only data of the deleted dataset must stay hidden"],
+    },
 }
 
 # properties without a registered check yet, with the reason (kept current by hand)
